@@ -540,18 +540,24 @@ pub fn render_ctor(spec: &EnumSpec, vi: usize, fields: &[String]) -> String {
 }
 
 /// Debug text (derived `Debug`) of variant `vi` whose fields have the given Debug texts.
+/// `r#try` -> `try`: the identifier a raw identifier stands for
+pub fn unraw(ident: &str) -> &str {
+    ident.strip_prefix("r#").unwrap_or(ident)
+}
+
 pub fn debug_text(v: &VariantSpec, fields: &[String]) -> String {
+    let id = unraw(&v.ident).to_string();
     if v.kind.nfields() == 0 {
         // derived Debug prints `X` for `X`, `X()` and `X {}`
-        return v.ident.clone();
+        return id;
     }
     match &v.kind {
-        Kind::Unit => v.ident.clone(),
-        Kind::Tuple(_) => format!("{}({})", v.ident, fields.join(", ")),
+        Kind::Unit => id,
+        Kind::Tuple(_) => format!("{}({})", id, fields.join(", ")),
         Kind::Named(fs) => {
             let t: Vec<String> =
                 fs.iter().zip(fields).map(|(f, e)| format!("{}: {}", f.name, e)).collect();
-            format!("{} {{ {} }}", v.ident, t.join(", "))
+            format!("{} {{ {} }}", id, t.join(", "))
         }
     }
 }
